@@ -3,6 +3,7 @@
    volumes computed from the value alone) and the spans the annotated grammar assigns. *)
 From JsonSyntax Require Import Base.Prelude Base.Value Base.Unicode Base.Source Model.Parser Model.EntryPoints
   Model.CodeMapNav Spec.Grammar Spec.Preorder Spec.Utf8Spec Proofs.ParserSpec Proofs.ParserCorollaries Proofs.CodeMapShape.
+From JsonSyntax Require Import Base.ConstSyntax Generated.Consts Proofs.ConstsTie.
 
 (* everything at once, for the parser, on every error-free stream, under every option record:
    volumes are the subtree fragment counts in pre-order, one entry per fragment, every volume
@@ -66,8 +67,19 @@ Example C05_example :
         [(1, 20, 6); (3, 5, 1); (7, 18, 4); (8, 16, 3); (8, 11, 1); (14, 16, 1)]).
 Proof. vm_compute. reflexivity. Qed.
 
+(* static tie (DESIGN.md section 4): the object functions of object.rs (entry fragment reserved before the key, key through
+   the string scanner, colon, comma, closing brace, the object's own fragment closed at the end), EXECUTED by the translator
+   from the source under the strict and the flexible record, return what Parser.object_start / object_continue return on
+   the same inputs -- result, position and the whole code map *)
+Theorem C05_object_functions_from_source :
+  src_leaf_object_start = ct_object_on ct_object_start_outcome object_start src_leaf_object_start
+  /\ src_leaf_object_continue = ct_object_on ct_object_continue_outcome (fun o => object_continue o 0) src_leaf_object_continue
+  /\ ((2500 <=? length src_leaf_object_start)%nat = true /\ (2500 <=? length src_leaf_object_continue)%nat = true).
+Proof. exact ConstsTie.object_functions_from_source. Qed.
+
 Print Assumptions C05_parser.
 Print Assumptions C05_code_map_is_grammar.
+Print Assumptions C05_object_functions_from_source.
 Print Assumptions C05_root_volume.
 Print Assumptions C05_span_exact.
 Print Assumptions C05_span_trimmed.
